@@ -306,6 +306,28 @@ type dotHSubNode struct {
 func (n *dotHSubNode) ID() int64             { return n.id }
 func (n *dotHSubNode) Subgraph() graph.Graph { return n.sub }
 
+// dotHAnonSubNode is a node of a simple graph that stands for a subgraph whose
+// graph value has nothing but the topology.
+type dotHAnonSubNode struct {
+	id  int64
+	sub graph.Graph
+}
+
+func (n *dotHAnonSubNode) ID() int64             { return n.id }
+func (n *dotHAnonSubNode) Subgraph() graph.Graph { return n.sub }
+
+// The multigraph printer tells directed from undirected with a type assertion
+// to graph.Directed, so an anonymous multigraph has to keep that method set.
+type dotDirMulti interface {
+	graph.Directed
+	graph.Multigraph
+}
+
+type dotUndirMulti interface {
+	graph.Undirected
+	graph.Multigraph
+}
+
 // dotHMultiSubNode is a node of a multigraph that stands for a subgraph.
 type dotHMultiSubNode struct {
 	id  int64
@@ -477,6 +499,10 @@ func dotDrawPort(t *simrt.Tape) (port, compass string) {
 	default:
 		port = dotDrawString(t)
 		compass = dotCompass[1+t.Choose(simrt.KValue, len(dotCompass)-1)]
+	}
+	if port != "" && t.Choose(simrt.KValue, 4) == 3 {
+		// a port (record field) may be named like a compass point
+		port = dotCompass[1+t.Choose(simrt.KValue, len(dotCompass)-1)]
 	}
 	if compass == "" && dotIsCompass(port) { // R3
 		compass = "c"
@@ -1077,9 +1103,27 @@ func runDotStructured(c *Ctx, used map[string]bool) *Violation {
 			sm.name = dotDrawUnique(t, used)
 			sg, _ := sm.build()
 			sg.common().name = sm.name
-			var sn graph.Node = &dotHSubNode{id: nextID, sub: sg}
-			if kind >= 2 {
+			// half of the subgraph nodes hand out an anonymous graph (no
+			// DOTID, no attributes): the printer then names the subgraph
+			// after the node that stands for it
+			anon := t.Choose(simrt.KWorkload, 2) == 1
+			var sn graph.Node
+			switch {
+			case kind < 2 && !anon:
+				sn = &dotHSubNode{id: nextID, sub: sg}
+			case kind == 0:
+				sn = &dotHAnonSubNode{id: nextID, sub: struct{ graph.Directed }{sg.(graph.Directed)}}
+			case kind == 1:
+				sn = &dotHAnonSubNode{id: nextID, sub: struct{ graph.Undirected }{sg.(graph.Undirected)}}
+			case !anon:
 				sn = &dotHMultiSubNode{id: nextID, sub: sg.(graph.Multigraph)}
+			case kind == 2:
+				sn = &dotHMultiSubNode{id: nextID, sub: struct{ dotDirMulti }{sg.(dotDirMulti)}}
+			default:
+				sn = &dotHMultiSubNode{id: nextID, sub: struct{ dotUndirMulti }{sg.(dotUndirMulti)}}
+			}
+			if anon {
+				c.Probe("anonymous_subgraph_nodes", 1)
 			}
 			nextID++
 			g.AddNode(sn)
